@@ -131,6 +131,18 @@ type Inner struct {
 func (o *Obj) Self() *Obj            { return o }
 func (o *Obj) Add(a, b int) int      { return a + b }
 func (o *Obj) Greet(s string) string { return "hi " + s }
+
+// PS is the head of a chained call: obj.PS(id).Name
+func (o *Obj) PS(id int) (*Obj, error) {
+	if o.rt.enter(id, "", pkMethod) {
+		if o.rt.Kind == fkWrongKind {
+			return nil, nil
+		}
+		return o, o.rt.Fault // a usable value together with the error
+	}
+	return o, nil
+}
+
 func (o *Obj) PM(id int, v interface{}) (interface{}, error) {
 	if o.rt.enter(id, "", pkMethod) {
 		if o.rt.Kind == fkWrongKind {
